@@ -185,7 +185,7 @@ def run(ctx):
 
     # ------------------------------------------------------------------ C02-derived-tail (Engine C)
     try:
-        from ..scm import derived
+        from scm import derived
         derived.tail_rule(ctx)
     except ImportError:
         ctx.note("Engine C (grammar.sld analysis) not available in this revision: C02-derived-tail not run")
